@@ -66,6 +66,7 @@ def run(model, res, tier):
     res.rule('R6', 'a lexeme that is a proper prefix of another is tried later')
     res.rule('R7', 'checked-in parse table equals the table generated from the source')
     res.rule('R8', 'thorough: LR driver trees equal precedence-climbing trees')
+    res.rule('R10', 'the token rules of the operator and parenthesis tokens only hand the token on: no condition, no raise, no state - every lexeme of the formula reaches the parser whatever came before it')
     res.rule('R9', 'the parse consumes a private token stream: the tree is built from all tokens of the formula even when a callback evaluates another formula (shared with C03.R1)')
     res.assumptions += ['A3 ply 3.11: function tokens are tried in definition order; yacc resolves S/R conflicts by the precedence table']
     res.trusted += ['ply.yacc Grammar/LRGeneratedTable as table generator', 'CPython ast', 're._parser']
@@ -82,8 +83,32 @@ def run(model, res, tier):
     _r7(model, res, g)
     from . import c03
     c03._r1(model, res, c, 'R9')
+    _r10(model, res, g)
     if tier == 'thorough':
         _r8(model, res, g)
+
+
+def _r10(model, res, g):
+    n = 0
+    for tok in BINARY + ['LPAREN', 'RPAREN']:
+        t = g.lex_token(tok)
+        if t is None:
+            continue
+        n += 1
+        if not t.is_func or not isinstance(t.node, ast.FunctionDef):
+            res.ob('R10', 'lexer:t_%s' % tok, 'string rule', True)
+            continue
+        f = t.node
+        tp = sa.params(f)[0] if sa.params(f) else None
+        body = [st for st in f.body if not (isinstance(st, ast.Expr) and isinstance(st.value, ast.Constant) and isinstance(st.value.value, str))]
+        extra = [st for st in body if not (isinstance(st, ast.Return) and isinstance(st.value, ast.Name) and st.value.id == tp)]
+        res.ob('R10', 'lexer:t_%s' % tok, 'token rule is `return t`', not extra, '; '.join(src(x)[:50] for x in extra))
+        if extra:
+            res.violation('R10', 'lexer:t_%s:not-verbatim' % tok, g.lexer_module.where(extra[0]),
+                          'the token rule of %s does more than return its token (%s): an operator or parenthesis can be dropped, rewritten or '
+                          'rejected depending on what was lexed before, so the expression structure no longer follows from precedence and '
+                          'parentheses alone' % (tok, src(extra[0])[:80]), func='t_' + tok)
+    res.floor('operator and parenthesis tokens examined', n, 10)
 
 
 def _levels(g):
